@@ -1,3 +1,4 @@
 import DrandProofs.C16
 import DrandProofs.C17
 import DrandProofs.C18
+import DrandProofs.C13
